@@ -446,9 +446,10 @@ func runScenario(sc Scenario, hookbin string) (res Result) {
 
 	// ----- direct probes of the limiters the hooks really carry (after the queued work) -----
 	type probe struct {
-		hook string
-		ts   []int64
-		min  time.Duration
+		hook    string
+		rounds  [][]int64 // limited hooks: return times of B + 2 consecutive RateLimitWait calls, two rounds
+		refused bool      // RateLimitWait gave up: the wait would have exceeded 8 s
+		min     time.Duration
 	}
 	var pmu sync.Mutex
 	probes := map[string]*probe{}
@@ -489,12 +490,19 @@ func runScenario(sc Scenario, hookbin string) (res Result) {
 					}
 				}
 			} else if drained {
-				time.Sleep(time.Duration(h.Burst*h.ITicks)*tick + 30*time.Millisecond)
-				for i := 0; i < h.Burst+2; i++ {
-					if hk.RateLimitWait(ctx) != nil {
-						break
+				for round := 0; round < 2 && !p.refused; round++ {
+					time.Sleep(time.Duration(h.Burst*h.ITicks)*tick + 30*time.Millisecond) // a full bucket
+					var ts []int64
+					for i := 0; i < h.Burst+2; i++ {
+						if hk.RateLimitWait(ctx) != nil {
+							p.refused = true
+							break
+						}
+						ts = append(ts, time.Now().UnixNano())
 					}
-					p.ts = append(p.ts, time.Now().UnixNano())
+					if len(ts) == h.Burst+2 {
+						p.rounds = append(p.rounds, ts)
+					}
 				}
 			}
 			pmu.Lock()
@@ -572,25 +580,50 @@ func runScenario(sc Scenario, hookbin string) (res Result) {
 				res.Notes = append(res.Notes, "NOT-REPRODUCED spawn lag: "+detail+fmt.Sprintf("; the in-process stamps taken right after RateLimitWait satisfy the bound (max lag %.1f ms)", st.LagMaxMs))
 			}
 		}
-		if p != nil && len(p.ts) == h.Burst+2 {
-			for _, t := range p.ts {
-				st.ProbeMs = append(st.ProbeMs, int((t-p.ts[0])/1e6))
+		if p != nil && p.refused {
+			res.Notes = append(res.Notes, fmt.Sprintf("DIVERGENCE C18/conformance/stricter-than-configured: hook %s (executionMinInterval %dms, executionBurst %d): %d consecutive RateLimitWait calls cannot be served within 8 s", h.Name, h.ITicks*sc.TickMs, h.Burst, h.Burst+2))
+		}
+		if p != nil && len(p.rounds) == 2 {
+			// every finding has to show in both rounds (a stall of the prober is not a property of the limiter)
+			viol, noBurst, loose, strict := 0, 0, 0, 0
+			var worst []int64
+			for _, ts := range p.rounds {
+				if pi, _, _, _ := windowCheck(ts, iNs, slack, h.Burst); pi >= 0 {
+					viol++
+					worst = ts
+				}
+				if ts[h.Burst-1]-ts[0] >= iNs-slack && h.Burst > 1 {
+					noBurst++
+				}
+				if ts[h.Burst]-ts[0] < iNs-slack {
+					loose++
+				}
+				if ts[h.Burst+1]-ts[0] > 2*iNs+int64(time.Second) {
+					strict++
+				}
 			}
-			if pi, pj, _, _ := windowCheck(p.ts, iNs, slack, h.Burst); pi >= 0 {
+			for _, t := range p.rounds[0] {
+				st.ProbeMs = append(st.ProbeMs, int((t-p.rounds[0][0])/1e6))
+			}
+			if viol == 2 {
+				var rel []int
+				for _, t := range worst {
+					rel = append(rel, int((t-worst[0])/1e6))
+				}
 				fail("C18/limiter-probe/"+fmt.Sprintf("B%d", h.Burst), h.Name+"/probe",
-					fmt.Sprintf("hook %s (executionMinInterval %dms, executionBurst %d): %d consecutive RateLimitWait calls on the hook's limiter return within %.1f ms (returns at %v ms)",
-						h.Name, h.ITicks*sc.TickMs, h.Burst, pj-pi+1, ms(p.ts[pj]-p.ts[pi]), st.ProbeMs),
-					map[string]interface{}{"hook": h.Name, "probe_ms": st.ProbeMs})
+					fmt.Sprintf("hook %s (executionMinInterval %dms, executionBurst %d): %d consecutive RateLimitWait calls on the hook's limiter (full bucket) return at %v ms: more than B + ceil((T + %dms)/I) within a window (seen in two rounds)",
+						h.Name, h.ITicks*sc.TickMs, h.Burst, h.Burst+2, rel, sc.SlackMs),
+					map[string]interface{}{"hook": h.Name, "probe_ms": rel})
 			}
 			// conformance with the documented token bucket (not part of the verdict)
-			if d := p.ts[h.Burst-1] - p.ts[0]; d > iNs/2 {
-				res.Notes = append(res.Notes, fmt.Sprintf("DIVERGENCE C18/conformance/burst-not-granted: hook %s with a full bucket: the first %d RateLimitWait calls take %.1f ms (executionBurst %d should let them pass at once)", h.Name, h.Burst, ms(d), h.Burst))
+			if noBurst == 2 {
+				res.Notes = append(res.Notes, fmt.Sprintf("DIVERGENCE C18/conformance/burst-not-granted: hook %s with a full bucket: the first %d RateLimitWait calls take %d ms (executionBurst %d should let them pass at once)", h.Name, h.Burst, st.ProbeMs[h.Burst-1], h.Burst))
 			}
-			if d := p.ts[h.Burst] - p.ts[0]; d < iNs-slack {
-				res.Notes = append(res.Notes, fmt.Sprintf("DIVERGENCE C18/conformance/looser-than-bucket: hook %s: call %d returns %.1f ms after the first (a bucket of %d tokens refilled every %dms gives >= %dms); still within B + ceil(T/I)", h.Name, h.Burst+1, ms(d), h.Burst, h.ITicks*sc.TickMs, h.ITicks*sc.TickMs))
+			if loose == 2 && viol < 2 {
+				res.Notes = append(res.Notes, fmt.Sprintf("DIVERGENCE C18/conformance/looser-than-bucket: hook %s: call %d returns %d ms after the first (a bucket of %d tokens refilled every %dms gives >= %dms); still within B + ceil(T/I)", h.Name, h.Burst+1, st.ProbeMs[h.Burst], h.Burst, h.ITicks*sc.TickMs, h.ITicks*sc.TickMs))
 			}
-			if d := p.ts[h.Burst+1] - p.ts[0]; d > 4*iNs {
-				res.Notes = append(res.Notes, fmt.Sprintf("DIVERGENCE C18/conformance/stricter-than-configured: hook %s: call %d returns %.1f ms after the first (configured interval %dms)", h.Name, h.Burst+2, ms(d), h.ITicks*sc.TickMs))
+			if strict == 2 {
+				res.Notes = append(res.Notes, fmt.Sprintf("DIVERGENCE C18/conformance/stricter-than-configured: hook %s: call %d returns %d ms after the first (configured interval %dms)", h.Name, h.Burst+2, st.ProbeMs[h.Burst+1], h.ITicks*sc.TickMs))
 			}
 		}
 		res.Hooks = append(res.Hooks, st)
